@@ -1,5 +1,31 @@
-// stub: check for C09 not built yet
+use chan::e2::{self, Prop};
+use chan::e7;
+use vcore::Level;
+
+const RULE: &str = "same history generator weighted towards overflow: capacities 1-8, send / try_send / async send (timeout 0|inf) sequences against a receiver that never runs, runs slowly or whose processor never returns (unresolved batch); the queue_length, queue_full_truncated and queue_full_blocked metrics are sampled after every operation; small-scope exhaustive mode; E7 with many sender threads against a worker parked on a harness latch. Oracle: pending (queue_length) equals the model and never exceeds capacity; send on full discards the whole older queue, keeps the new item, counts one truncation; try_send/async send on full hand back exactly the item (pending unchanged) and accept iff there is room; blocked sends are counted; all sender calls return while the worker is held on the latch. Non-trivial = at least one overflow.";
+
 fn main() {
-    eprintln!("C09: check not built yet");
-    std::process::exit(2);
+    vcore::run(
+        "C09",
+        Level::Exploration,
+        RULE,
+        &[
+            "E2 drives Receiver::exec, tokio::send/flush futures and all sender calls from one thread; because all state shared by the halves is behind one mutex and the receiver runs at most one critical section between two suspension points, every lock-granularity interleaving of the two-thread system corresponds to a placement of sender operations between receiver steps",
+            "the hand-off instant is observed through when_empty callbacks (documented to fire at a point where the current batch is empty) and through the processor invocation",
+            "documented defaults of emit_batcher::bounded are taken as given: at most 10 retries per batch, back-off capped at 10 s, idle wait capped at 500 ms",
+            "E7 samples OS schedules (it does not own them); its oracles are ticket-ordered history invariants that hold for every interleaving; the 30 s watchdogs are the only use of wall-clock time",
+            "condvar/oneshot wake-up paths (sync.rs, tokio.rs) are only exercised by E7, i.e. sampled",
+        ],
+        |s| {
+        s.require("overflow-via-send", 5000);
+        s.require("overflow-via-try_send", 5000);
+        s.require("overflow-via-async-send", 5000);
+        s.require("e7:stalled-worker", 200);
+        s.require("e7:handed-back", 50);
+            s.gen("e2-random", s.n(400_000, 12_000_000), || e2::case(e2::W_C09), |c, cx| e2::check(c, Prop::C09, cx));
+            let max_len = if s.quick() { 6 } else { 7 };
+            s.enumerate("e2-small-scope", e2::small_cases(max_len, &[1, 2]), |c, cx| e2::check(&c.to_case(), Prop::C09, cx));
+            s.gen("e7-os-threads", s.n(3_000, 150_000), || e7::workload(8), |c, cx| e7::check(c, Prop::C09, cx));
+        },
+    )
 }
